@@ -7,7 +7,7 @@
    TableCert.gen_table, Resolve.resolve, PackCore.place_all, Productive.productive_set). *)
 From Coq Require Import List Arith ZArith Bool.
 Import ListNotations.
-From YG Require Import LRBase LR0Build Productive Resolve TableCert LAExec PackCore.
+From YG Require Import LRBase LR0Build Productive Resolve TableCert LASuperset LAExec PackCore.
 
 (* ---------- the grammar object handed over by the front end (Parser/Vistor.go BuildLALR1) ---------- *)
 (* symbols are numbered as in Grammar.Symbols: 0 = the internal start symbol, 1 = "$" (end marker),
